@@ -7,6 +7,8 @@
     serializer options (1296 combinations, optional-tag omission off).
 (C) flat exhaustive: hand-built DOCTYPE tokens with every public x system identifier of length <= 2 (3) over
     {a, ", ', >, space} (and absent).
+(D) flat: every element name of the standard's tables (158 names), as HTML element and as SVG twin, with markup-like
+    text inside and after it and with a quote in an attribute value, under the reduced option sets.
 Oracle: serializer.errors non-empty (and strict=True raises SerializeError), or ref/retokenize.py reading
 the output in place yields exactly the tags, attribute (qualified name, value) sets, text, comments and
 doctype of the stream.  noscript is read with scripting off AND on; a divergence under either counts.
@@ -226,7 +228,8 @@ def step(ctx, word):
 
 # (É, U+00C9, is one of the characters whose named reference also exists in the legacy form without ';': written for an
 # output encoding that lacks it, what FOLLOWS it decides how the reference is read back)
-VAL = ["a", " ", '"', "'", "=", "<", ">", "`", "&", "é", "\n", "\t", "/", "É", ";"]
+VAL = ["a", " ", '"', "'", "=", "<", ">", "`", "&", "é", "\n", "\t", "/", "É", ";",
+       "&amp;", "&#65;", "&lt"]       # values that LOOK like character references (must be written so that they are not decoded)
 TXT = ["x", "<", ">", "&", '"', "'", "-", "é", "\n", "]", "/", "!", "&lt;", "&amp;", "&#65;", "&copy", "É", ";"]
 TEXT_CTX = [("p", HTML_NS), ("title", HTML_NS), ("textarea", HTML_NS), ("style", HTML_NS), ("script", HTML_NS), ("xmp", HTML_NS),
             ("svg", SVG_NS), ("style", SVG_NS), ("title", SVG_NS), ("mi", MATHML_NS), ("pre", HTML_NS)]
@@ -311,6 +314,38 @@ def _c_shard(args):
     return res
 
 
+# ---- (D) element-name sweep: every element name of the standard, HTML and SVG twin, with markup-like text and a quote
+
+_VOID = frozenset("area base br col embed hr img input link meta param source track wbr".split())
+
+
+def name_streams(name):
+    out = []
+    for ns in (HTML_NS, SVG_NS):
+        if ns == HTML_NS and name in _VOID:
+            out.append([{"type": "EmptyTag", "name": name, "namespace": ns, "data": OrderedDict([((None, "title"), 'a"b')])},
+                        {"type": "Characters", "data": "x"}])
+        else:
+            out.append([{"type": "StartTag", "name": name, "namespace": ns, "data": OrderedDict()},
+                        {"type": "Characters", "data": "<b>&amp;x"}, {"type": "EndTag", "name": name, "namespace": ns},
+                        {"type": "Characters", "data": "<i>&lt;"}])
+            out.append([{"type": "StartTag", "name": name, "namespace": ns, "data": OrderedDict([((None, "title"), 'a"b')])},
+                        {"type": "EndTag", "name": name, "namespace": ns}])
+    return out
+
+
+def _d_shard(names):
+    res = {"evals": 0, "viol": {}}
+    for name in names:
+        for st in name_streams(name):
+            for opts in REDUCED + [{"omit_optional_tags": False, "escape_rcdata": True, "use_trailing_solidus": True}]:
+                res["evals"] += 1
+                j = judge_stream(st, opts)
+                if j is not None and j[1] not in res["viol"]:
+                    res["viol"][j[1]] = (name, st, opts, j)
+    return res
+
+
 def stream_json(st):
     return c11.jsonable_stream(st)
 
@@ -345,7 +380,7 @@ def replay(harness, config, case):
 
 def run(run):
     quick = run.tier == "quick"
-    only = os.environ.get("VERIF_PARTS", "A,B,C").split(",")
+    only = os.environ.get("VERIF_PARTS", "A,B,C,D").split(",")
     classes = {}
     if "A" in only:
         depth = {"T1": 3, "T2": 3, "T3": 3, "T4": 3, "T5": 3, "T6": 3, "T7": 3, "TA": 4, "TT": 3} if quick else \
@@ -381,6 +416,12 @@ def run(run):
                 if cls not in classes or True:
                     classes.setdefault(cls, engine.Violation(H, {"kind": "stream", "what": name, "opts": opts}, stream_json(st), j[2], j[3], j[0], cls))
         run.set("option_combinations", 1296)
+    if "D" in only:
+        names = tw.ALL_NAMES
+        for r in engine.pmap(_d_shard, [names[i:i + 10] for i in range(0, len(names), 10)], chunksize=1):
+            run.add("name_sweep_serializations", r["evals"])
+            for cls, (name, st, opts, j) in r["viol"].items():
+                classes.setdefault(cls, engine.Violation(H, {"kind": "stream", "what": "name:" + name, "opts": opts}, stream_json(st), j[2], j[3], j[0], cls))
     if "C" in only:
         L = 2 if quick else 3
         for r in engine.pmap(_c_shard, [(pub, L) for pub in doctype_ids(L)], chunksize=1):
